@@ -1468,11 +1468,35 @@ class AsType(Elemwise):
             meta = clear_known_categories(meta)
         return meta
 
+    @functools.cached_property
+    def _preserves_values(self):
+        # widening numeric conversions do not change the outcome of a predicate
+        def dtypes(meta):
+            return list(meta.dtypes) if meta.ndim == 2 else [meta.dtype]
+
+        for old, new in zip(dtypes(self.frame._meta), dtypes(self._meta)):
+            if old == new:
+                continue
+            if not (
+                isinstance(old, np.dtype)
+                and isinstance(new, np.dtype)
+                and old.kind in "iufb"
+                and new.kind in "iuf"
+                and np.can_cast(old, new, "safe")
+            ):
+                return False
+        return True
+
     def _simplify_up(self, parent, dependents):
         if isinstance(parent, Filter) and self._filter_passthrough_available(
             parent, dependents
         ):
-            return self._filter_simplification(parent)
+            if self._preserves_values:
+                return self._filter_simplification(parent)
+            if parent.frame._name == self._name:
+                # the predicate has to see the converted values
+                return self._filter_simplification(parent, parent.predicate)
+            return
         if isinstance(parent, Projection):
             dtypes = self.operand("dtypes")
             columns = determine_column_projection(self, parent, dependents)
